@@ -1,4 +1,4 @@
-(* GENERATED from the Go sources of /repo by /verif/tools/gen_model — do not edit. *)
+(* GENERATED from the Go sources of /var/tmp/mrepo by /verif/tools/gen_model — do not edit. *)
 From Coq Require Import String.
 From OtpV Require Import Prelude Sha GoSem Rfc4648 Errors Decoder Otp Ocra Utils Suite Url.
 Open Scope N_scope.
@@ -361,20 +361,22 @@ Definition OCRAInput_Validate (in_ : ocra_input) (cfg : suite_cfg) : res (option
   kj1 tt)
   else (kj1 tt).
 
-Definition deriveRFC6287 (fuel0 : nat) (junk_rfc6287BufPool : bytes) (secret : bytes) (s : suite_cfg) (input : ocra_input) : res (bytes * (option err)) :=
-  do t1 <- SuiteConfig_Validate s;
-  let err_ := t1 in
+Definition deriveRFC6287 (fuel0 : nat) (junk_rfc6287BufPool : bytes) (secret : bytes) (s : (option suite_cfg)) (input : ocra_input) : res (bytes * (option err)) :=
+  do t1 <- deref s;
+  do t2 <- SuiteConfig_Validate t1;
+  let err_ := t2 in
   if (is_some err_) then (Val ([], err_))
   else
-  do t2 <- SuiteConfig_Config s;
-  let cfg := t2 in
-  do t3 <- OCRAInput_Validate input cfg;
-  let err__2 := t3 in
+  do t3 <- deref s;
+  do t4 <- SuiteConfig_Config t3;
+  let cfg := t4 in
+  do t5 <- OCRAInput_Validate input cfg;
+  let err__2 := t5 in
   if (is_some err__2) then (Val ([], err__2))
   else
   let msgBuf := junk_rfc6287BufPool in
-  do t4 <- slice msgBuf 0%Z 0%Z;
-  let msg := t4 in
+  do t6 <- slice msgBuf 0%Z 0%Z;
+  let msg := t6 in
   let msg := (msg ++ (sc_raw cfg)) in
   let msg := (msg ++ [0%N]) in
   let kj1 := fun (msg : bytes) =>
@@ -382,49 +384,50 @@ Definition deriveRFC6287 (fuel0 : nat) (junk_rfc6287BufPool : bytes) (secret : b
   let kj3 := fun (msg : bytes) =>
   let kj4 := fun (msg : bytes) =>
   let kj5 := fun (msg : bytes) =>
-  do t5 <- pool_at hmacPools (Z.of_N (sc_hash cfg));
-  let hp := t5 in
+  do t7 <- pool_at hmacPools (Z.of_N (sc_hash cfg));
+  let hp := t7 in
   let mac := (hmac_new hp secret) in
   let mac := (hash_write mac msg) in
   let sum_ := (hash_sum mac []) in
-  do t6 <- idxN g_mod10 (sc_digits cfg);
-  do t7 <- truncate sum_ t6;
-  let otp := t7 in
-  do t8 <- formatDecimal fuel0 otp (sc_digits cfg);
-  Val (t8, None) in
-  if (sc_t cfg) then (do t9 <- padBytes (oi_timestamp input) 8%Z;
-  let msg := (msg ++ t9) in
+  do t8 <- idxN g_mod10 (sc_digits cfg);
+  do t9 <- truncate sum_ t8;
+  let otp := t9 in
+  do t10 <- formatDecimal fuel0 otp (sc_digits cfg);
+  Val (t10, None) in
+  if (sc_t cfg) then (do t11 <- padBytes (oi_timestamp input) 8%Z;
+  let msg := (msg ++ t11) in
   kj5 msg)
   else (kj5 msg) in
-  if (sc_s cfg) then (do t10 <- padBytes (oi_session input) 128%Z;
-  let msg := (msg ++ t10) in
+  if (sc_s cfg) then (do t12 <- padBytes (oi_session input) 128%Z;
+  let msg := (msg ++ t12) in
   kj4 msg)
   else (kj4 msg) in
   if (sc_p cfg) then (let msg := (msg ++ (oi_password input)) in
   kj3 msg)
   else (kj3 msg) in
-  if (sc_q cfg) then (do t11 <- padBytes (oi_challenge input) 128%Z;
-  let msg := (msg ++ t11) in
+  if (sc_q cfg) then (do t13 <- padBytes (oi_challenge input) 128%Z;
+  let msg := (msg ++ t13) in
   kj2 msg)
   else (kj2 msg) in
-  if (sc_c cfg) then (do t12 <- padBytes (oi_counter input) 8%Z;
-  let msg := (msg ++ t12) in
+  if (sc_c cfg) then (do t14 <- padBytes (oi_counter input) 8%Z;
+  let msg := (msg ++ t14) in
   kj1 msg)
   else (kj1 msg).
 
-Definition validateRFC6287 (fuel0 : nat) (junk_rfc6287BufPool : bytes) (code : bytes) (secret : bytes) (suite : suite_cfg) (input : ocra_input) : res (bool * (option err)) :=
-  do t1 <- SuiteConfig_Config suite;
-  let cfg := t1 in
+Definition validateRFC6287 (fuel0 : nat) (junk_rfc6287BufPool : bytes) (code : bytes) (secret : bytes) (suite : (option suite_cfg)) (input : ocra_input) : res (bool * (option err)) :=
+  do t1 <- deref suite;
+  do t2 <- SuiteConfig_Config t1;
+  let cfg := t2 in
   validate code (sc_digits cfg) (fun _ : unit => deriveRFC6287 fuel0 junk_rfc6287BufPool secret suite input).
 
-Definition GenerateOCRA (fuel0 : nat) (junk_rfc6287BufPool : bytes) (secret : bytes) (suite : suite_cfg) (input : ocra_input) : res (bytes * (option err)) :=
+Definition GenerateOCRA (fuel0 : nat) (junk_rfc6287BufPool : bytes) (secret : bytes) (suite : (option suite_cfg)) (input : ocra_input) : res (bytes * (option err)) :=
   do t1 <- DecodeSecret fuel0 secret;
   let '(secretBuf, err_) := t1 in
   if (is_some err_) then (Val ([], err_))
   else
   deriveRFC6287 fuel0 junk_rfc6287BufPool secretBuf suite input.
 
-Definition ValidateOCRA (fuel0 : nat) (junk_rfc6287BufPool : bytes) (secret : bytes) (code : bytes) (suite : suite_cfg) (input : ocra_input) : res (bool * (option err)) :=
+Definition ValidateOCRA (fuel0 : nat) (junk_rfc6287BufPool : bytes) (secret : bytes) (code : bytes) (suite : (option suite_cfg)) (input : ocra_input) : res (bool * (option err)) :=
   do t1 <- DecodeSecret fuel0 secret;
   let '(secretBuf, err_) := t1 in
   if (is_some err_) then (Val (false, err_))
@@ -579,27 +582,27 @@ Definition parseRawSuite (fuel0 : nat) (raw : bytes) : res (suite_cfg * (option 
   else
   Val (cfg, None).
 
-Definition NewRawSuite (fuel0 : nat) (raw : bytes) : res (suite_cfg * (option err)) :=
+Definition NewRawSuite (fuel0 : nat) (raw : bytes) : res ((option suite_cfg) * (option err)) :=
   let '(suiteCfg, ok) := (lookup_go raw) in
   if ok then (let suiteCfg := mkSuite raw (sc_hash suiteCfg) (sc_digits suiteCfg) (sc_challenge suiteCfg) (sc_c suiteCfg) (sc_q suiteCfg) (sc_p suiteCfg) (sc_s suiteCfg) (sc_t suiteCfg) (sc_pwhash suiteCfg) (sc_timestep suiteCfg) in
   do t1 <- SuiteConfig_Validate suiteCfg;
   let err_ := t1 in
-  if (is_some err_) then (Val ((mkSuite [] 0 0 0 false false false false false 0 0), err_))
+  if (is_some err_) then (Val ((Some (mkSuite [] 0 0 0 false false false false false 0 0)), err_))
   else
-  Val (suiteCfg, None))
+  Val ((Some suiteCfg), None))
   else
   do t2 <- parseRawSuite fuel0 raw;
   let '(cfg, err__2) := t2 in
-  if (is_some err__2) then (Val ((mkSuite [] 0 0 0 false false false false false 0 0), err__2))
+  if (is_some err__2) then (Val ((Some (mkSuite [] 0 0 0 false false false false false 0 0)), err__2))
   else
-  Val (cfg, None).
+  Val ((Some cfg), None).
 
-Definition NewSuite (cfg : suite_cfg) : res (suite_cfg * (option err)) :=
+Definition NewSuite (cfg : suite_cfg) : res ((option suite_cfg) * (option err)) :=
   do t1 <- SuiteConfig_Validate cfg;
   let err_ := t1 in
-  if (is_some err_) then (Val ((mkSuite [] 0 0 0 false false false false false 0 0), err_))
+  if (is_some err_) then (Val (None, err_))
   else
-  Val (cfg, None).
+  Val ((Some cfg), None).
 
 Definition IsKnownSuite (raw : bytes) : res bool :=
   let '(_, ok) := (lookup_go raw) in
